@@ -184,14 +184,15 @@ def _classify(diags, table, unit, cfg):
         labels = []
         for s in sorted(spans, key=lambda s: not s.get('is_primary')):
             ln = s['line_start']
-            ent = table[ln - 1] if 0 < ln <= len(table) else {}
+            own = os.path.basename(s.get('file_name', '')).startswith('u_')
+            ent = table[ln - 1] if (own and 0 < ln <= len(table)) else {'file': 'vstd:' + s.get('file_name', '?'), 'line': None, 'tag': None}
             tag = ent.get('tag')
             labels.append({'assembled_line': ln, 'label': s.get('label'), 'file': ent.get('file'), 'line': ent.get('line'), 'tag': tag,
                            'text': (s.get('text') or [{}])[0].get('text', '').strip()[:200]})
             if tag not in GENERIC_TAGS and tag and not tag.startswith('CANARY'):
                 named = named or tag
             f = ent.get('file')
-            if f and not f.startswith('template:') and not f.startswith('spec/') and ent.get('line'):
+            if f and not f.startswith('template:') and not f.startswith('spec/') and not f.startswith('vstd:') and ent.get('line'):
                 in_lifted = True
                 if src_loc is None:
                     src_loc = f"{f}:{ent.get('line')}"
